@@ -97,22 +97,22 @@ Section overflow.
   Qed.
 
   Lemma run_kids' (ks : list call) :
-    Forall (fun k => timed k -> positive k -> forall s hk d, fc s = fcd d -> enabled s = true -> ridx s = d ->
+    Forall (fun k => timed k -> forall s hk d, fc s = fcd d -> enabled s = true -> ridx s = d ->
                      idx s = N.min d ms -> d <= gd -> Forall okframe (stack s) ->
                      exists s', exec c (flat k) (s, hk) = (s', hk) /\
                                 after' s s' d (recs 0 (N.min gd ms) d k)) ks ->
-    all_timed ks -> all_positive ks -> forall s hk d, fc s = fcd d -> enabled s = true -> ridx s = d ->
+    all_timed ks -> forall s hk d, fc s = fcd d -> enabled s = true -> ridx s = d ->
     idx s = N.min d ms -> d <= gd -> Forall okframe (stack s) ->
     exists s', exec c (flat_map flat ks) (s, hk) = (s', hk) /\
                after' s s' d (flat_map (recs 0 (N.min gd ms) d) ks).
   Proof.
-    induction 1 as [|k r Hk _ IH]; intros HT HP s hk d Hfc Hen Hr Hi Hd Hok.
+    induction 1 as [|k r Hk _ IH]; intros HT s hk d Hfc Hen Hr Hi Hd Hok.
     - exists s. split; [reflexivity|]. apply after'_nil; assumption.
-    - destruct HT as [Tk Tr]. destruct HP as [Pk Pr].
-      destruct (Hk Tk Pk s hk d Hfc Hen Hr Hi Hd Hok) as (s1 & E1 & A1).
+    - destruct HT as [Tk Tr].
+      destruct (Hk Tk s hk d Hfc Hen Hr Hi Hd Hok) as (s1 & E1 & A1).
       pose proof (after'_idx _ _ _ _ A1) as I1. pose proof (after'_ok _ _ _ _ A1 Hok) as K1.
       assert (A1' := A1). destruct A1' as (b1 & _ & F1 & En1 & _ & R1 & _ & _).
-      destruct (IH Tr Pr s1 hk d F1 En1 R1) as (s2 & E2 & A2); try assumption; [congruence|].
+      destruct (IH Tr s1 hk d F1 En1 R1) as (s2 & E2 & A2); try assumption; [congruence|].
       exists s2. split.
       + cbn [flat_map]. unfold exec in *. rewrite fold_left_app, E1. exact E2.
       + cbn [flat_map]. eapply after'_trans; eassumption.
@@ -121,14 +121,14 @@ Section overflow.
   Lemma positive_kids a t0 t1 kids : positive (Call a t0 t1 kids) -> all_positive kids.
   Proof. cbn. intros (_ & H). induction kids; cbn in *; tauto. Qed.
 
-  Theorem run_call' : forall k, timed k -> positive k -> forall s hk d,
+  Theorem run_call' : forall k, timed k -> forall s hk d,
     fc s = fcd d -> enabled s = true -> ridx s = d -> idx s = N.min d ms -> d <= gd ->
     Forall okframe (stack s) ->
     exists s', exec c (flat k) (s, hk) = (s', hk) /\ after' s s' d (recs 0 (N.min gd ms) d k).
   Proof.
-    induction k as [a t0 t1 kids IH] using call_ind'. intros HT HP s hk d Hfc Hen Hr Hi Hd Hok.
-    pose proof (run_kids' kids IH (timed_kids _ _ _ _ HT) (positive_kids _ _ _ _ HP)) as RK. clear IH.
-    destruct HT as (Ht01 & Ht1 & Hpos & _). destruct HP as (Hlt & _).
+    induction k as [a t0 t1 kids IH] using call_ind'. intros HT s hk d Hfc Hen Hr Hi Hd Hok.
+    pose proof (run_kids' kids IH (timed_kids _ _ _ _ HT)) as RK. clear IH.
+    destruct HT as (Ht01 & Ht1 & Hpos & _).
     cbn [flat]. unfold exec. cbn [fold_left dstep]. rewrite fold_left_app. cbn [fold_left].
     destruct (N.le_gt_cases (N.min gd ms) d) as [Hout|Hin].
     - (* at or beyond the limit: the whole subtree is dropped *)
@@ -189,13 +189,13 @@ Section overflow.
         cbn [app]. reflexivity.
   Qed.
 
-  Theorem run_forest' : forall f, all_timed f -> all_positive f ->
+  Theorem run_forest' : forall f, all_timed f ->
     out (fst (exec c (flat_forest f) (init, []))) = flat_map (recs 0 (N.min gd ms) 0) f.
   Proof.
-    intros f HT HP.
+    intros f HT.
     destruct (run_kids' f) with (s := init) (hk := @nil bool) (d := 0) as (s' & E & A); try reflexivity; try assumption.
     - clear. induction f as [|k r IH]; constructor; [|exact IH].
-      intros Tk Pk s hk d. apply run_call'; assumption.
+      intros Tk s hk d. apply run_call'; assumption.
     - cbn. lia.
     - lia.
     - constructor.
